@@ -102,7 +102,7 @@ class C09(Check):
 
     def strata(self, tier):
         return [('S-alldelayed', 4), ('S-mixed', 3), ('S-heun', 1), ('S-conn-single', 2), ('S-conn-multi', 1),
-                ('S-step', 2), ('S-hub', 1), ('S-matrix', 1)]
+                ('S-step', 2), ('S-hub', 1), ('S-matrix', 1), ('S-fortran', 0.25)]      # a few f2py builds per quick run
 
     def generate(self, rng, stratum, tier):
         dt = rng.choice([1e-3, 0.01, 0.05])
@@ -134,6 +134,10 @@ class C09(Check):
                               delays=delays, hier=rng.random() < 0.2,
                               # multi-operator nodes: the delayed source variable is also read by a second operator of its node
                               readouts=(0.5, 0.0) if rng.random() < 0.3 else None)
+        if stratum == 'S-fortran':
+            cfg.update({'backend': 'fortran', 'vectorize': False, 'mode': 'run', 'solver': 'euler', 'prelude': None,
+                        'sparseness': None})
+            cfg['steps'] = min(cfg['steps'], 30)
         if stratum == 'S-hub':
             spec = self.gen_hub(rng, dt)
             cfg['vectorize'] = rng.random() < 0.8
@@ -338,6 +342,9 @@ class C09(Check):
                 skw = {'sampling_step_size': cfg['m'] * dt} if cfg.get('m', 1) > 1 else {}
                 if skw:
                     bump('subsampled')
+                if cfg.get('backend'):
+                    kw['backend'] = cfg['backend']
+                    bump(cfg['backend'])
                 c.run(T, dt, outputs=outputs, solver=cfg['solver'], vectorize=cfg['vectorize'], float_precision='float64',
                       decorator=rec, verbose=False, **skw, **kw)
             else:
